@@ -23,6 +23,7 @@ REWARD_SLICE = [r'reward\..*', r'tok\..*', r'hub\.ugi', r'inst\.reward']
 
 PROPS = {
     'C12': {
+        'corpus': ['twelve-validators.ops'],
         'families': [pure('deleg', 10000, thorough_scale={'count': 80000}), pure('undeleg', 10000, thorough_scale={'count': 80000}), gen('registry', 30, 120)],
         'slice': [r'f\.deleg', r'f\.undeleg', r'hub\.bond', r'hub\.bondst', r'reg\.add', r'reg\.remove'],
         'explanation': 'calculate_delegations / calculate_undelegations called directly (public items) on seeded lists '
@@ -61,7 +62,7 @@ PROPS = {
         'explanation': 'per-operation rate monotonicity proved under the true-ratio premise; reported rates compared before/after every non-slashing step on the implementation',
     },
     'C05': {
-        'corpus': ['D2.ops'],
+        'corpus': ['D2.ops', 'bond-into-vacated-bsei-pool.ops'],
         'families': [matrix('c05'), gen('pegfee', 40, 100), gen('pricing', 25, 120), gen('dust', 15, 120)],
         'slice': [r'hub\.bond', r'tok\.send\.unbond', r'tok\.sendfrom\.unbond', r'tok\.send\.convert', r'tok\.sendfrom\.convert'],
         'explanation': 'fee bounds and never-past-the-peg proved for bond, unbond, convert stSei->bSei; convert bSei->stSei proved under the exact cap (D2 is the code not respecting it)',
@@ -129,13 +130,13 @@ PROPS = {
         'explanation': 'epoch gate, single write of consecutive batch ids, release only after the unbonding period, finality of released entries proved on the model; AllHistory snapshots compared between all steps with time advances landing on, one before and one after the epoch and maturity boundaries',
     },
     'C01': {
-        'corpus': ['D1.ops', 'D5.ops', 'zero-arrival-release.ops', 'release-pair-one-unit-short.ops'],
+        'corpus': ['D1.ops', 'D5.ops', 'zero-arrival-release.ops', 'release-pair-one-unit-short.ops', 'ten-batches-wait-list-order.ops'],
         'families': [gen('release', 40, 120, deep=True), gen('dust', 20, 120, deep=True), gen('mixed', 15, 120)],
         'slice': [r'hub\.withdraw', r'env\.advance', r'env\.slashu', r'env\.donate', r'tok\.send\.unbond', r'tok\.sendfrom\.unbond'],
         'explanation': 'payout = recorded share, single payment, order independence and the single-batch allocation bound proved; release groups of many batches with slashed unbonding stake, donations, many users per batch: released claims vs hub balance after every step, payout recomputed, second withdrawal, unfunded-claim probe (clone with extra coins)',
     },
     'C13': {
-        'corpus': ['reg-remove-zero-delegation.ops', 'reg-remove-last-idle.ops', 'reg-remove-while-paused.ops', 'reg-remove-with-inactive-peer.ops', 'registry-placeholder-hub.ops'],
+        'corpus': ['reg-remove-zero-delegation.ops', 'reg-remove-last-idle.ops', 'reg-remove-while-paused.ops', 'reg-remove-with-inactive-peer.ops', 'registry-placeholder-hub.ops', 'twelve-validators.ops'],
         'families': [gen('deploy', 25, 80), gen('registry', 40, 120), gen('mixed', 15, 120)],
         'slice': [r'reg\..*', r'hub\.redel', r'hub\.bond', r'hub\.bondst', r'hub\.ugi', r'env\.noredel', r'env\.inactive'],
         'explanation': 'registry removal / hub proxy / chain redelegation proved step by step (plan sums to the whole delegation via C12, targets still registered); end-to-end RemoveValidator transactions on the minichain with pending rewards, in-flight batches, blocked redelegations, removal and re-addition sequences',
@@ -147,7 +148,7 @@ PROPS = {
         'explanation': 'hub / distribution / dispatcher / re-bond / reward-index steps proved separately and composed; whole UpdateGlobalIndex transactions (incl. those triggered by validator removal) on the minichain: pending rewards zero afterwards, dispatcher empty, stSei pool up by exactly the re-bonded amount, no mint, claims and hub balance untouched, accrued grows by the delivered amount within dust',
     },
     'C09': {
-        'corpus': ['D6b.ops', 'D5.ops', 'epoch-changed-midlife.ops'],
+        'corpus': ['D6b.ops', 'D5.ops', 'epoch-changed-midlife.ops', 'ten-batches-wait-list-order.ops'],
         'families': [gen('mixed', 25, 100, deep=True), gen('dust', 20, 100, deep=True), gen('release', 15, 100, deep=True), gen('stubs', 20, 100, deep=True)],
         'slice': [r'tok\.send\.unbond', r'tok\.sendfrom\.unbond', r'hub\.withdraw', r'hub\.bond', r'hub\.bondst', r'tok\.send\.convert', r'tok\.transfer', r'reward\.claim', r'env\.oracle', r'env\.swap'],
         'explanation': 'hub-side liveness of unbond proved from explicit invariant premises; non-interference proved structurally (exit handlers do not read stub state); on the implementation: dry-run unbond of every holder on cloned states after every step, withdrawal after epoch+unbonding on clones, every exit operation re-executed under failing / garbage swap and oracle stubs and compared, calls to swap/oracle from exit paths flagged',
